@@ -843,6 +843,16 @@ var pinnedQueries = []string{
 	`{ users { x: device { isOn } x: peer { __typename } } }`,
 	`{ users { x: secret x: greet a: greet(salute: "a") a: greet(salute: "b") } }`,
 	`{ everyone { ... on User { x: device { id } } ... on Everyone { ... on User { x: peer { __typename } } } } }`,
+	// parallelism hints (0, 1, 2, 5, more than the sources, negative) on objects reached through a null parent,
+	// a list of only nulls, an empty list, a single object, a list, a null deep below, a union member
+	`{ noItem { parB0 parB1 parB2 parB5 parBBig parBNeg parP0 parP1 parP2 parP5 parPBig parPNeg } }`,
+	`{ item(id: -1) { parB2 parP2 parB0 parPNeg } }`,
+	`{ nullItems { parB0 parB1 parB2 parB5 parBBig parBNeg parP0 parP1 parP2 parP5 parPBig parPNeg } }`,
+	`{ noItems { parB0 parB1 parB2 parB5 parBBig parBNeg parP0 parP1 parP2 parP5 parPBig parPNeg } }`,
+	`{ item(id: 1) { parB0 parB1 parB2 parB5 parBBig parBNeg parP0 parP1 parP2 parP5 parPBig parPNeg } }`,
+	`{ items { parB0 parB1 parB2 parB5 parBBig parBNeg parP0 parP1 parP2 parP5 parPBig parPNeg } }`,
+	`{ item(id: 1) { parent { parent { parent { parent { parB2 parP5 parB0 } children { parB5 parPBig } } } } } }`,
+	`{ things { ... on Item { parB2 parP2 parBNeg related { ... on Item { parB5 parP0 } } } } nullItems { children { parB1 } } }`,
 }
 
 func pinnedCase(i int) *gcase {
